@@ -23,6 +23,8 @@ def body(ctx):
     io_side(ctx, ex, prog, VAL)
     handle_side(ctx, ex, prog)
     api_returns(ctx, prog)
+    import c06
+    c06.propagate(ctx, prog)    # a reply that arrives in the same read pass as an end of stream or a read error is still routed to its caller
     VAL.run()
 
 
@@ -30,7 +32,7 @@ def io_side(ctx, ex, prog, VAL):
     def pre(fs, a, b):
         kinds = [fs.is_method(c, m) for (c, m) in ACKS] + [fs.is_method('Basic', 'ConsumeOk'), fs.is_method('Basic', 'CancelOk'), fs.is_method('Basic', 'GetEmpty'), fs.is_method('Channel', 'CloseOk')]
         return [z3.Or(*kinds), fs.chan('Method') != 0]
-    fs, a, b, infoA, res = explore_step(ctx, ex, prog, shapeA='None', pre=pre)
+    fs, a, b, infoA, res = explore_step(ctx, ex, prog, shapeA='None', pre=pre, sealed=sym('sealed0', z3.BoolSort()))   # replies are routed also while the client's own connection close is in flight
     n = fs.chan('Method')
     cnt = 0
     seen = set()
